@@ -7,6 +7,8 @@ import (
 	"fmt"
 	"hash/fnv"
 	"io"
+	"os"
+	"strings"
 	"sync"
 	"sync/atomic"
 	"testing"
@@ -736,6 +738,82 @@ func TestC08(t *testing.T) {
 		n = rec.N(500, 60000)
 	}
 	def := defCtx(t)
+	// registrations at run time (every sm.Client.Dial makes some) while messages are being
+	// dispatched, among them messages of known commands that nobody handles (no handler, no
+	// catch-all: the path that builds an error report). Real scheduler, no bubble: the
+	// interleaving of a registration with a dispatch in progress is the point. Dispatch must
+	// keep making progress; a run that stops is decided by the goroutine dump.
+	rec.Suite("registrations-during-unhandled-dispatch", rec.N(3, 40), func(c *ev.Case) {
+		c.Class("registrations-during-unhandled-dispatch")
+		mux := diam.NewServeMux()
+		var handled, unhandled, regs atomic.Int64
+		mux.HandleFunc("DWR", func(diam.Conn, *diam.Message) { handled.Add(1) })
+		stop := make(chan struct{})
+		var rg sync.WaitGroup
+		rg.Add(1)
+		go func() {
+			defer rg.Done()
+			for i := 0; ; i++ {
+				select {
+				case <-stop:
+					return
+				default:
+				}
+				if i%2 == 0 {
+					mux.HandleFunc(fmt.Sprintf("X%dR", i%7), func(diam.Conn, *diam.Message) {})
+				} else {
+					mux.HandleIdx(diam.CommandIndex{AppID: 7, Code: uint32(1000 + i%7), Request: true}, diam.HandlerFunc(func(diam.Conn, *diam.Message) {}))
+				}
+				regs.Add(1)
+			}
+		}()
+		const G, N = 4, 40000
+		var wg sync.WaitGroup
+		for g := 0; g < G; g++ {
+			wg.Add(1)
+			go func() {
+				defer wg.Done()
+				dwr := diam.NewRequest(280, 0, def.Parser)
+				dpr := diam.NewRequest(282, 0, def.Parser) // a base command nobody registered
+				for i := 0; i < N; i++ {
+					if (i+g)%2 == 0 {
+						mux.ServeDIAM(nil, dwr)
+					} else {
+						mux.ServeDIAM(nil, dpr)
+						unhandled.Add(1)
+					}
+				}
+			}()
+		}
+		done := make(chan struct{})
+		go func() { wg.Wait(); close(done) }()
+		select {
+		case <-done:
+		case <-time.After(90 * time.Second):
+			var lockers []string
+			for _, g := range libGoroutines() {
+				if strings.Contains(g.Stack, "sync.(*Mutex).Lock") || strings.Contains(g.Stack, "sync.(*RWMutex).Lock") || strings.Contains(g.Stack, "sync.(*RWMutex).RLock") {
+					lockers = append(lockers, g.Stack)
+				}
+			}
+			if len(lockers) > 0 {
+				c.Fail(ev.Sig{"op": "blocked-on-library-lock", "frame": topLibFrame(lockers[0])}, nil, nil,
+					"handlers registered at run time while messages (some of them of a known command that nobody handles) were being dispatched: dispatch stopped after %d handled and %d unhandled messages and %d registrations; %d goroutine(s) wait for a lock inside the library, e.g.\n%s", handled.Load(), unhandled.Load(), regs.Load(), len(lockers), lockers[0])
+			} else {
+				c.Fail(ev.Sig{"op": "watchdog"}, nil, nil, "dispatch of %d messages did not finish within 90 s of real time (%d handled, %d registrations)", G*N, handled.Load(), regs.Load())
+			}
+			rec.Close()
+			os.Exit(0)
+		}
+		close(stop)
+		rg.Wait()
+		if handled.Load() != G*N/2 {
+			c.Fail(ev.Sig{"op": "dispatch-count", "how": "registrations-during-unhandled-dispatch"}, nil, nil, "%d DWRs dispatched to a mux with a DWR handler, the handler ran %d times", G*N/2, handled.Load())
+			return
+		}
+		c.Event("stress_dispatches", G*N)
+		c.Event("stress_registrations", int(regs.Load()))
+	})
 	rec.Suite("slow-handlers-read-timeout", 12, func(c *ev.Case) {
 		K, n := 1+c.I%3, 2+(c.I/3)%2
 		rt := []time.Duration{100 * time.Millisecond, 2 * time.Second}[(c.I/6)%2]
